@@ -58,6 +58,7 @@ partial def loop (h : IO.FS.Stream) (out : IO.FS.Stream) (f : String → String)
   loop h out f
 
 def modes : List (String × (String → String)) := [
+  ("c04p", C04.handleParams),
   ("c08t", C08T.handle),
   ("c07-filter", C07.handleFilter),
   ("c16incl", C16Incl.handle),
